@@ -30,6 +30,34 @@ Theorem C08_key_sound :
 Proof. exact key_sound. Qed.
 Print Assumptions C08_key_sound.
 
+(* (b') the key as the code computes it: standalone/serialize.py:serialize_funct_h5, regenerated on
+   every run (cloudpickle.dumps, _get_hash and fn.__name__ as parameters).  Equal keys => the same
+   function name and - unless the digest collides on the two pickles or cloudpickle maps the two
+   calls to one pickle - the same function, positional arguments, keyword arguments AND resource
+   dictionary; the stored data are exactly these four components. *)
+From EL Require Import Base.PyLib Gen.Serialize Proofs.KeyGen.
+Theorem C08_key_covers_function_args_kwargs_resources :
+  forall dumps get_hash n1 n2 f1 a1 k1 r1 f2 a2 k2 r2 b1 b2 h1 h2 key d1 d2,
+    dumps (call_dict f1 a1 k1 r1) = Ok b1 -> dumps (call_dict f2 a2 k2 r2) = Ok b2 ->
+    get_hash b1 = Ok (VStr h1) -> get_hash b2 = Ok (VStr h2) ->
+    String.length h1 = String.length h2 ->
+    (h1 = h2 -> b1 = b2) ->
+    (b1 = b2 -> call_dict f1 a1 k1 r1 = call_dict f2 a2 k2 r2) ->
+    serialize_funct_h5 dumps get_hash (VStr n1) f1 a1 k1 r1 = Ok (VTuple [key; d1]) ->
+    serialize_funct_h5 dumps get_hash (VStr n2) f2 a2 k2 r2 = Ok (VTuple [key; d2]) ->
+    n1 = n2 /\ f1 = f2 /\ a1 = a2 /\ k1 = k2 /\ r1 = r2.
+Proof. exact keygen_covers. Qed.
+Print Assumptions C08_key_covers_function_args_kwargs_resources.
+
+Theorem C08_key_shape :
+  forall dumps get_hash name f a k r b h,
+    dumps (call_dict f a k r) = Ok b ->
+    get_hash b = Ok (VStr h) ->
+    serialize_funct_h5 dumps get_hash (VStr name) f a k r
+    = Ok (VTuple [VStr (String.append name h); call_dict f a k r]).
+Proof. exact keygen_shape. Qed.
+Print Assumptions C08_key_shape.
+
 (* (d) file mode never accepts an incomplete entry (every crash point of the worker) ... *)
 Theorem C08_file_mode_serves_only_complete_entries :
   forall (fin : file) (leftover : option file) (k : nat),
